@@ -356,6 +356,9 @@ func (r *Run) writeEvidence(total, nDis, nKnown, nViol, nUndec, nInfo int, stale
 	for k, v := range r.Extra {
 		cov[k] = v
 	}
+	if r.Assumptions == nil {
+		r.Assumptions = []string{}
+	}
 	ev := map[string]any{
 		"property_id": r.Prop,
 		"tier":        r.Tier,
